@@ -56,3 +56,16 @@ for n in [300, 1500]:
     for shape, (q, d) in {'wide-subset': ('$.e[?subset_of(@,$.l)]', {'e': [arr, arr[::-1]], 'l': arr}), 'wide-any-of': ('$.e[?any_of(@,$.l)]', {'e': [arr[::-1]], 'l': arr}),
                           'wide-none-of': ('$.e[?none_of(@,$.l)]', {'e': [['x'] * n], 'l': arr})}.items():
         print(json.dumps({'mode': 'run', 'shape': shape, 'depth': n, 'q': q, 'doc': d}))
+
+# documents nested deeper than any JSON text the crate's parser reads (built in code by the harness, `wrap`): recursion over the document
+for n in [1000, 10000] + ([30000] if tier == 'thorough' else []):
+    deepdocs = {
+        'deep-doc-control': ('$[0]', False),                 # no recursion in the crate: tells a limit of the harness (building / dropping the value) from one of the crate
+        'deep-doc-descendant': ('$..*', False),
+        'deep-doc-descendant-filter': ('$..[?@ == 1]', False),
+        'deep-doc-child-chain': ('$' + '[0]' * 50, False),
+        'deep-doc-equality': ('$[?@==$[0]]', True),
+        'deep-doc-length': ('$[?length(@)==1]', True),
+    }
+    for shape, (q, dup) in deepdocs.items():
+        print(json.dumps({'mode': 'run', 'shape': shape, 'depth': n, 'q': q, 'doc': 0, 'wrap': ['[]'] * n, 'dup': dup}))
